@@ -385,3 +385,48 @@ func BlockReaches(from, to *ssa.BasicBlock, stop map[*ssa.BasicBlock]bool) bool 
 	}
 	return false
 }
+
+// ParamOf resolves v to the function parameter it denotes: the parameter
+// itself, or a load of the heap/stack cell the parameter was spilled into
+// (go/ssa spills parameters captured by closures) when that cell is never
+// stored to again.
+func ParamOf(v ssa.Value) *ssa.Parameter {
+	if p, ok := v.(*ssa.Parameter); ok {
+		return p
+	}
+	addr, ok := Deref(v)
+	if !ok {
+		return nil
+	}
+	al, ok := addr.(*ssa.Alloc)
+	if !ok {
+		return nil
+	}
+	var param *ssa.Parameter
+	for _, r := range *al.Referrers() {
+		if st, ok := r.(*ssa.Store); ok && st.Addr == ssa.Value(al) {
+			p, ok := st.Val.(*ssa.Parameter)
+			if !ok || param != nil {
+				return nil
+			}
+			param = p
+		}
+		// a closure capturing the cell could write it; only accept if no closure stores to it
+		if mc, ok := r.(*ssa.MakeClosure); ok {
+			fn := mc.Fn.(*ssa.Function)
+			for i, b := range mc.Bindings {
+				if b == ssa.Value(al) && i < len(fn.FreeVars) {
+					for _, r2 := range *fn.FreeVars[i].Referrers() {
+						if st, ok := r2.(*ssa.Store); ok && st.Addr == ssa.Value(fn.FreeVars[i]) {
+							return nil
+						}
+					}
+				}
+			}
+		}
+	}
+	return param
+}
+
+// IsParam reports whether v denotes parameter p.
+func IsParam(v ssa.Value, p *ssa.Parameter) bool { return ParamOf(v) == p }
